@@ -73,7 +73,7 @@ func reportProp(prop, tier string, seed int, runs []*HarnessRun, known []KnownFi
 		}
 		// translator validation: a witness of a completed, violation-free path
 		// must also run clean natively (all assumptions hold, no assertion fails)
-		if !h.Spec.NoNative && len(h.Cex) == 0 {
+		if !h.Spec.NoNative && h.Spec.Structural == "" && len(h.Cex) == 0 {
 			nval := 1
 			if tier == "thorough" {
 				nval = 3
@@ -82,9 +82,9 @@ func reportProp(prop, tier string, seed int, runs []*HarnessRun, known []KnownFi
 				if i >= nval {
 					break
 				}
-				doc := &ReplayDoc{Property: prop, Harness: h.Spec.Name, Package: h.Spec.Pkg, Extra: h.Spec.Extra, Obligation: "(validation)", Assignment: sm, Params: h.params}
+				doc := &ReplayDoc{Property: prop, Harness: h.Spec.Name, Package: h.Spec.Pkg, Extra: h.Spec.Extra, Obligation: "(validation)", Assignment: sm, Params: h.params, Race: h.Spec.Race}
 				res, out := runNative(doc)
-				if res == "not-reproduced" && !strings.Contains(out, "ZZ-ASSUME-FALSE") && !strings.Contains(out, "ZZ-FAILED") && !strings.Contains(out, "ZZ-PANIC") && !strings.Contains(out, "ZZ-DEADLOCK") {
+				if res == "not-reproduced" && !strings.Contains(out, "ZZ-ASSUME-FALSE") && !strings.Contains(out, "ZZ-FAILED") && !strings.Contains(out, "ZZ-PANIC") && !strings.Contains(out, "ZZ-DEADLOCK") && !strings.Contains(out, "ZZ-RACE") {
 					validated++
 				} else {
 					h.Incon = append(h.Incon, Inconclusive{h.Spec.Name, "engine-mismatch", "witness of a clean path does not run clean natively: " + res + "\n" + indent(out) + "\n    inputs: " + compactModel(sm)})
@@ -93,7 +93,11 @@ func reportProp(prop, tier string, seed int, runs []*HarnessRun, known []KnownFi
 		}
 		// replay counterexamples
 		for _, cx := range h.Cex {
-			replayCex(prop, h, cx)
+			if cx.Kind == "structural" {
+				cx.ReplayPath = writeStructuralReplay(prop, cx)
+			} else {
+				replayCex(prop, h, cx)
+			}
 			switch cx.Replayed {
 			case "confirmed", "no-replay-needed":
 				violations++
@@ -233,4 +237,14 @@ func unreached(h *HarnessRun) []string {
 		}
 	}
 	return out
+}
+
+func writeStructuralReplay(prop string, cx *Counterexample) string {
+	dir := filepath.Join(verifDir, "replays", prop)
+	os.MkdirAll(dir, 0o755)
+	path := filepath.Join(dir, cx.Harness+"-structural.json")
+	b, _ := json.MarshalIndent(map[string]interface{}{"property": prop, "harness": cx.Harness, "obligation": cx.Obligation, "kind": "structural", "detail": cx.Where,
+		"command": "cd /verif && ./bin/vcheck run " + prop + " --harness " + cx.Harness}, "", " ")
+	os.WriteFile(path, b, 0o644)
+	return path
 }
